@@ -598,8 +598,11 @@ def make_wsgi_app(
     _pkce_active = False
     _pkce_user_info_html: str | None = None
     _exempt_prefixes_list: list[str] = []
+    # The health endpoint is exempt as an exact path, not as a prefix: a prefix
+    # match would also exempt every RPC method whose name starts with "health".
+    _exempt_paths_list: list[str] = []
     if enable_health_endpoint:
-        _exempt_prefixes_list.append(f"{prefix}/health")
+        _exempt_paths_list.append(f"{prefix}/health")
     if (
         authenticate is not None
         and _validated_oauth_metadata is not None
@@ -663,6 +666,7 @@ def make_wsgi_app(
             www_authenticate=www_authenticate,
             on_auth_failure=on_auth_failure,
             exempt_prefixes=tuple(_exempt_prefixes_list),
+            exempt_paths=tuple(_exempt_paths_list),
         )
     )
     # Sticky middleware runs AFTER auth so AAD binding sees the authenticated
